@@ -666,6 +666,10 @@ func pipeNontrivial(out *pipeOutcome, ref *pipeRef) bool {
 
 func init() {
 	worlds["C01"] = func(rc *RunCtx) {
+		if rc.Tape.WBool(1, 5) {
+			cliFilterWorld(rc, "C01") // CLI-level variant: stderr summary, exit status, printed keys
+			return
+		}
 		max := 40
 		if rc.Tier == "thorough" && rc.Tape.WBool(1, 50) {
 			max = 400
@@ -682,6 +686,10 @@ func init() {
 		rc.Logf("read=%d matched=%d ignored=%d emitted=%d", out.ReadLines, out.MatchedLines, out.IgnoredLines, len(out.Matches))
 	}
 	worlds["C02"] = func(rc *RunCtx) {
+		if rc.Tape.WBool(1, 5) {
+			cliFilterWorld(rc, "C02") // CLI-level variant: default filter output with colour codes stripped, -l prefixes
+			return
+		}
 		max := 40
 		if rc.Tier == "thorough" && rc.Tape.WBool(1, 50) {
 			max = 400
